@@ -332,6 +332,9 @@ def _run_cell_shard_inner(cell, res, shard, n_examples, seed_val, tier):
         _CASE_T0[0], _CASE_T0[1] = time.time(), (cell.case_limit or CASE_LIMIT_DEFAULT)
         if _CASE_T0[2] is not None:
             _CASE_T0[2].value = _CASE_T0[0]
+        if os.environ.get("VERIF_TRACE"):  # debugging aid: last case each worker started (to identify a stuck case)
+            with open("%s.%d" % (os.environ["VERIF_TRACE"], os.getpid()), "w") as f_:
+                json.dump({"cell": cell.name, "case": jsonable(case)}, f_)
         if cell.classify is not None:
             try:
                 c = cell.classify(case)
